@@ -2,6 +2,8 @@ import Proofs.BCHBound
 import Kaira.BM
 import Proofs.Decoders
 import Proofs.Syndrome
+import Mathlib.Tactic.LinearCombination
+import Mathlib.Tactic.Ring
 
 /-! # Berlekamp–Massey decoder: what can be said for every code word -/
 namespace BMProofs
@@ -446,5 +448,339 @@ theorem bm_corrects_t1 (c : BchInst) (hok : bchOk c = true) (hd : 2 < c.delta) (
     rw [Nat.xor_zero]
     exact bm_no_error c hok 1 (by omega) msg
   · exact bm_single_error c hok hd msg p hp
+
+
+/-! ## t = 2: symbolic evaluation of the recursion, algebra in characteristic 2, the quadratic locator -/
+
+
+theorem fmul_zero_l (P b : Nat) : GF2m.fmul P 0 b = 0 := by unfold GF2m.fmul; simp
+theorem fmul_one_l (P b : Nat) : GF2m.fmul P 1 b = b := by
+  unfold GF2m.fmul
+  by_cases hb : b = 0
+  · simp [hb]
+  · simp [hb]
+
+/-- the tabular recursion for `t = 2` on syndromes with `S₁ ≠ 0`, `S₂ = S₁²` -/
+theorem bm_t2 (P m S1 S2 S3 S4 iv : Nat) (h1 : S1 ≠ 0) (h2 : S2 = GF2m.fmul P S1 S1) (hiv : finv? P m S1 = some iv) :
+    bm P m 2 [S1, S2, S3, S4] =
+      if S3 ^^^ GF2m.fmul P S1 S2 = 0 then [1, S1]
+      else [1, S1, GF2m.fmul P (S3 ^^^ GF2m.fmul P S1 S2) iv] := by
+  have hf1 : GF2m.fmul P S1 1 = S1 := by
+    unfold GF2m.fmul
+    by_cases h : S1 = 1
+    · simp [h]
+    · simp [h1, h]
+  have hd1 : S2 ^^^ GF2m.fmul P S1 S1 = 0 := by rw [h2, Nat.xor_self]
+  have hinv1 : finv? P m 1 = some 1 := by simp [finv?]
+  by_cases hd2 : S3 ^^^ GF2m.fmul P S1 S2 = 0
+  · simp [bm, bmStep, pickK, pickK.go, padTo, hinv1, hiv, h1, hf1, fmul_one_l, fmul_zero_l, List.range_succ, hd1, hd2, ← h2]
+  · simp [bm, bmStep, pickK, pickK.go, padTo, hinv1, hiv, h1, hf1, fmul_one_l, fmul_zero_l, List.range_succ, hd1, hd2, ← h2]
+
+
+
+
+
+/-! ### algebra in characteristic 2 (stated for any commutative ring, applied to `Elt P`) -/
+section Char2
+variable {R : Type*} [CommRing R] (h2 : ∀ x : R, x + x = 0)
+include h2
+
+theorem sq_add_char2 (a b : R) : (a + b) * (a + b) = a ^ 2 + b ^ 2 := by
+  have := h2 (a * b)
+  linear_combination this
+
+theorem disc2_char2 (a b : R) : (a ^ 3 + b ^ 3) + (a + b) * (a ^ 2 + b ^ 2) = a * b * (a + b) := by
+  have := h2 (a ^ 3 + b ^ 3)
+  linear_combination this
+
+theorem add_eq_zero_char2 (x y : R) : x + y = 0 ↔ x = y := by
+  constructor
+  · intro h
+    have := h2 y
+    linear_combination h - this
+  · intro h; rw [h]; exact h2 y
+
+end Char2
+
+theorem quad_factor {R : Type*} [CommRing R] (a b x : R) :
+    1 * x ^ 0 + (a + b) * x ^ 1 + a * b * x ^ 2 = (1 + a * x) * (1 + b * x) := by ring
+
+/-- inverse by the Fermat power, as the model computes it -/
+theorem OkFacts.mul_pow_inv {c : BchInst} (f : OkFacts c) [Good c.P] (a : Elt c.P) (ha : a ≠ 0) : a * a ^ (c.n - 1) = 1 := by
+  have hm2 := f.m2
+  have hN : 0 < 2 ^ c.m - 1 := by
+    have : 2 ^ 2 ≤ 2 ^ c.m := Nat.pow_le_pow_right (by decide) hm2
+    omega
+  have hcard : Fintype.card (Elt c.P) = (2 ^ c.m - 1) + 1 := by
+    rw [card_elt, ← bitLen_eq_size, f.hP]
+    have : 0 < 2 ^ c.m := Nat.two_pow_pos c.m
+    simp only [Nat.add_sub_cancel]; omega
+  have hord := f.order
+  rw [f.hn] at hord ⊢
+  exact Prim.inverse_exists (alpha f) (2 ^ c.m - 1) hN hcard hord a ha
+
+theorem alpha_pow_ne_zero {c : BchInst} (f : OkFacts c) [Good c.P] (p : Nat) : alpha f ^ p ≠ 0 := by
+  intro hz
+  have hn : 0 < c.n := by
+    have := f.hn; have := f.m2
+    have : 2 ^ 2 ≤ 2 ^ c.m := Nat.pow_le_pow_right (by decide) f.m2
+    omega
+  have hone : alpha f ^ c.n = 1 := by rw [pow_eq_one_iff f]
+  have : (alpha f ^ p) ^ c.n = 0 := by rw [hz, zero_pow (by omega)]
+  rw [← pow_mul, mul_comm, pow_mul, hone, one_pow] at this
+  exact one_ne_zero this
+
+/-- the evaluation point of position `j` in the root search, as a field element -/
+def xAt {c : BchInst} (f : OkFacts c) [Good c.P] (j : Nat) : Elt c.P := if j > 0 then alpha f ^ (c.n - j) else 1
+
+theorem xAt_val {c : BchInst} (f : OkFacts c) [Good c.P] (j : Nat) :
+    (if j > 0 then fpow c.P 2 (c.n - j) else 1) = (xAt f j).val := by
+  unfold xAt; split
+  · exact Field18.fpow_model_eq (alpha f) _
+  · rfl
+
+/-- `α^p · x_j = 1` exactly at `j = p` -/
+theorem root_iff {c : BchInst} (f : OkFacts c) [Good c.P] (p j : Nat) (hp : p < c.n) (hj : j < c.n) :
+    alpha f ^ p * xAt f j = 1 ↔ j = p := by
+  unfold xAt
+  by_cases hj0 : j > 0
+  · simp only [hj0, if_true]
+    rw [← pow_add, pow_eq_one_iff f]
+    constructor
+    · intro hd
+      obtain ⟨q, hq⟩ := hd
+      have hq1 : q = 1 := by
+        rcases Nat.lt_or_ge q 1 with h | h
+        · have : q = 0 := by omega
+          subst this; omega
+        · rcases Nat.lt_or_ge q 2 with h' | h'
+          · omega
+          · have : c.n * 2 ≤ c.n * q := Nat.mul_le_mul_left _ h'
+            omega
+      subst hq1; omega
+    · intro hjp; subst hjp
+      exact ⟨1, by omega⟩
+  · have hj00 : j = 0 := by omega
+    simp only [hj0, if_false, mul_one]
+    rw [pow_eq_one_iff f]
+    constructor
+    · intro hd
+      have : p = 0 := Nat.eq_zero_of_dvd_of_lt hd hp
+      omega
+    · intro hjp
+      rw [← hjp, hj00]; exact dvd_zero _
+
+
+
+
+
+theorem filter_range_pair (n p q : Nat) (hpq : p < q) (hq : q < n) (f : Nat → Bool)
+    (hf : ∀ j, j < n → (f j = true ↔ (j = p ∨ j = q))) : (List.range n).filter f = [p, q] := by
+  induction n with
+  | zero => omega
+  | succ n ih =>
+    rw [List.range_succ, List.filter_append]
+    by_cases hqn : q = n
+    · subst hqn
+      have h1 : (List.range q).filter f = [p] := by
+        apply filter_range_single q p hpq
+        intro j hj
+        rw [hf j (by omega)]
+        constructor
+        · rintro (h | h)
+          · exact h
+          · omega
+        · intro h; exact Or.inl h
+      have h2 : f q = true := (hf q (by omega)).mpr (Or.inr rfl)
+      simp [h1, h2]
+    · have hlt : q < n := by omega
+      have h1 := ih hlt (fun j hj => hf j (by omega))
+      have h2 : f n = false := by
+        cases hfn : f n
+        · rfl
+        · have := (hf n (by omega)).mp hfn
+          omega
+      simp [h1, h2]
+
+/-- syndromes of a two-bit word -/
+theorem syndAt_two {c : BchInst} (f : OkFacts c) [Good c.P] (p q i : Nat) (hp : p < c.n) (hq : q < c.n) :
+    syndAt c.P c.n ((1 <<< p) ^^^ (1 <<< q)) i = ((alpha f ^ p) ^ i + (alpha f ^ q) ^ i).val := by
+  rw [syndAt_xor, syndAt_unit f p i hp, syndAt_unit f q i hq, val_add]
+  congr 1
+  · rw [← pow_mul, ← pow_mul, mul_comm]
+  · rw [← pow_mul, ← pow_mul, mul_comm]
+
+/-- evaluation of a quadratic locator in the model -/
+theorem evalList_quad {P : Nat} [Good P] (s c x : Elt P) :
+    evalList P [(1 : Elt P).val, s.val, c.val] x.val = (1 * x ^ 0 + s * x ^ 1 + c * x ^ 2).val := by
+  unfold evalList
+  simp only [List.zipIdx_cons, List.zipIdx_nil, List.foldl_cons, List.foldl_nil, Nat.zero_add, Nat.zero_xor]
+  rw [Field18.fpow_model_eq x 0, Field18.fpow_model_eq x 1, Field18.fpow_model_eq x (1 + 1), Field18.fmul_model_eq 1 (x ^ 0),
+    Field18.fmul_model_eq s (x ^ 1), Field18.fmul_model_eq c (x ^ (1 + 1))]
+  rfl
+
+/-- **the root search on the locator `(1 + α^p x)(1 + α^q x)`** finds exactly the positions `p` and `q` -/
+theorem locate_pair {c : BchInst} (f : OkFacts c) [Good c.P] (p q : Nat) (hpq : p < q) (hq : q < c.n) :
+    locate c.P c.n [1, (alpha f ^ p + alpha f ^ q).val, (alpha f ^ p * alpha f ^ q).val] = [p, q] := by
+  have hnz := f.noZeroDivisors
+  have hchar : ∀ x : Elt c.P, x + x = 0 := add_self_elt
+  apply filter_range_pair c.n p q hpq hq
+  intro j hj
+  have hlist : ([1, (alpha f ^ p + alpha f ^ q).val, (alpha f ^ p * alpha f ^ q).val] : List Nat) =
+      [(1 : Elt c.P).val, (alpha f ^ p + alpha f ^ q).val, (alpha f ^ p * alpha f ^ q).val] := rfl
+  rw [xAt_val f j, hlist, evalList_quad, quad_factor]
+  simp only [beq_iff_eq]
+  have hz : ((1 + alpha f ^ p * xAt f j) * (1 + alpha f ^ q * xAt f j)).val = 0 ↔
+      (1 + alpha f ^ p * xAt f j) * (1 + alpha f ^ q * xAt f j) = 0 :=
+    ⟨fun h => Subtype.ext h, fun h => by rw [h]; rfl⟩
+  rw [hz, mul_eq_zero, add_eq_zero_char2 hchar, add_eq_zero_char2 hchar, eq_comm, root_iff f p j (by omega) hj,
+    eq_comm (a := (1 : Elt c.P)), root_iff f q j hq hj]
+
+
+
+
+
+theorem finv_model {c : BchInst} (f : OkFacts c) [Good c.P] (s : Elt c.P) (hs : s ≠ 0) :
+    finv? c.P c.m s.val = some (s ^ (c.n - 1)).val := by
+  have hsv : s.val ≠ 0 := fun h => hs (Subtype.ext h)
+  unfold finv?
+  rw [if_neg hsv]
+  by_cases h1 : s.val = 1
+  · rw [if_pos h1]
+    have : s = 1 := Subtype.ext h1
+    rw [this, one_pow]; rfl
+  · rw [if_neg h1]
+    have hn : c.n - 1 = 2 ^ c.m - 2 := by rw [f.hn]; omega
+    rw [hn, Field18.fpow_model_eq s (2 ^ c.m - 2)]
+
+/-- **two errors**: the decoder model (t = 2) removes every pattern of exactly two errors from every code word -/
+theorem bm_double_error (c : BchInst) (hok : bchOk c = true) (hd : 4 < c.delta) (msg p q : Nat) (hpq : p < q) (hq : q < c.n) :
+    correct c.P c.m 2 c.n (encode c.G msg ^^^ ((1 <<< p) ^^^ (1 <<< q))) = encode c.G msg := by
+  have f := facts_of_ok c hok
+  have := f.good
+  have hnz := f.noZeroDivisors
+  have hchar : ∀ x : Elt c.P, x + x = 0 := add_self_elt
+  have hp : p < c.n := by omega
+  rw [bm_reduction c 2 hok (by omega) msg _]
+  suffices h : correct c.P c.m 2 c.n ((1 <<< p) ^^^ (1 <<< q)) = 0 by rw [h, Nat.xor_zero]
+  set a := alpha f ^ p with ha
+  set b := alpha f ^ q with hb
+  have ha0 : a ≠ 0 := alpha_pow_ne_zero f p
+  have hb0 : b ≠ 0 := alpha_pow_ne_zero f q
+  have hab : a ≠ b := by
+    intro h
+    have := pow_injOn_Iio_orderOf (x := alpha f) (by rw [f.order]; exact hp) (by rw [f.order]; exact hq) h
+    omega
+  have hs0 : a + b ≠ 0 := fun h => hab ((add_eq_zero_char2 hchar a b).mp h)
+  unfold correct estimate synd
+  have hS : (List.range' 1 (2 * 2)).map (syndAt c.P c.n ((1 <<< p) ^^^ (1 <<< q))) =
+      [(a + b).val, (a ^ 2 + b ^ 2).val, (a ^ 3 + b ^ 3).val, (a ^ 4 + b ^ 4).val] := by
+    simp only [show (2 * 2 : Nat) = 1 + 1 + 1 + 1 from rfl, List.range'_succ, List.range'_zero, List.map_cons, List.map_nil]
+    rw [syndAt_two f p q 1 hp hq, syndAt_two f p q (1 + 1) hp hq, syndAt_two f p q (1 + 1 + 1) hp hq,
+      syndAt_two f p q (1 + 1 + 1 + 1) hp hq, pow_one, pow_one]
+  rw [hS]
+  have hS1 : (a + b).val ≠ 0 := fun h => hs0 (Subtype.ext h)
+  have hall : ([(a + b).val, (a ^ 2 + b ^ 2).val, (a ^ 3 + b ^ 3).val, (a ^ 4 + b ^ 4).val].all (· == 0)) = false := by
+    simp [hS1]
+  rw [hall]
+  simp only [Bool.false_eq_true, if_false]
+  have h2 : (a ^ 2 + b ^ 2).val = GF2m.fmul c.P (a + b).val (a + b).val := by
+    rw [Field18.fmul_model_eq (a + b) (a + b), sq_add_char2 hchar a b]
+  have hd2 : (a ^ 3 + b ^ 3).val ^^^ GF2m.fmul c.P (a + b).val (a ^ 2 + b ^ 2).val = (a * b * (a + b)).val := by
+    rw [Field18.fmul_model_eq (a + b) (a ^ 2 + b ^ 2), ← val_add, disc2_char2 hchar a b]
+  have hd2ne : (a * b * (a + b)).val ≠ 0 := by
+    intro h
+    have : a * b * (a + b) = 0 := Subtype.ext h
+    rcases mul_eq_zero.mp this with h' | h'
+    · rcases mul_eq_zero.mp h' with h'' | h''
+      · exact ha0 h''
+      · exact hb0 h''
+    · exact hs0 h'
+  rw [bm_t2 c.P c.m _ _ _ _ _ hS1 h2 (finv_model f (a + b) hs0), hd2, if_neg hd2ne]
+  have hc : GF2m.fmul c.P (a * b * (a + b)).val ((a + b) ^ (c.n - 1)).val = (a * b).val := by
+    rw [Field18.fmul_model_eq (a * b * (a + b)) ((a + b) ^ (c.n - 1)), mul_assoc, OkFacts.mul_pow_inv f (a + b) hs0, mul_one]
+  rw [hc, locate_pair f p q hpq hq]
+  simp [maskOfPositions]
+
+
+
+
+
+/-- one error, decoder configured for t = 2 -/
+theorem bm_single_error_t2 (c : BchInst) (hok : bchOk c = true) (hd : 4 < c.delta) (msg p : Nat) (hp : p < c.n) :
+    correct c.P c.m 2 c.n (encode c.G msg ^^^ (1 <<< p)) = encode c.G msg := by
+  have f := facts_of_ok c hok
+  have := f.good
+  have hchar : ∀ x : Elt c.P, x + x = 0 := add_self_elt
+  rw [bm_reduction c 2 hok (by omega) msg _]
+  suffices h : correct c.P c.m 2 c.n (1 <<< p) = 0 by rw [h, Nat.xor_zero]
+  set a := alpha f ^ p with ha
+  have ha0 : a ≠ 0 := alpha_pow_ne_zero f p
+  unfold correct estimate synd
+  have hS : (List.range' 1 (2 * 2)).map (syndAt c.P c.n (1 <<< p)) = [a.val, (a ^ 2).val, (a ^ 3).val, (a ^ 4).val] := by
+    simp only [show (2 * 2 : Nat) = 1 + 1 + 1 + 1 from rfl, List.range'_succ, List.range'_zero, List.map_cons, List.map_nil]
+    rw [syndAt_unit f p 1 hp, syndAt_unit f p (1 + 1) hp, syndAt_unit f p (1 + 1 + 1) hp, syndAt_unit f p (1 + 1 + 1 + 1) hp]
+    simp only [← pow_mul, Nat.one_mul, ha]
+    congr 1 <;> (try congr 1) <;> (try congr 1) <;> (try rw [mul_comm])
+  rw [hS]
+  have hS1 : a.val ≠ 0 := fun h => ha0 (Subtype.ext h)
+  have hall : ([a.val, (a ^ 2).val, (a ^ 3).val, (a ^ 4).val].all (· == 0)) = false := by simp [hS1]
+  rw [hall]
+  simp only [Bool.false_eq_true, if_false]
+  have h2 : (a ^ 2).val = GF2m.fmul c.P a.val a.val := by
+    rw [Field18.fmul_model_eq a a, pow_two]
+  have hd2 : (a ^ 3).val ^^^ GF2m.fmul c.P a.val (a ^ 2).val = 0 := by
+    rw [Field18.fmul_model_eq a (a ^ 2), ← pow_succ', ← val_add, hchar]; rfl
+  rw [bm_t2 c.P c.m _ _ _ _ _ hS1 h2 (finv_model f a ha0), if_pos hd2, ha, locate_single f p hp]
+  simp [maskOfPositions]
+
+/-- a word below `2^n` with at most two 1s is zero, a single bit, or two distinct bits -/
+theorem light_two (n e : Nat) (he : e < 2 ^ n) (hw : weight n e ≤ 2) :
+    e = 0 ∨ (∃ p, p < n ∧ e = 1 <<< p) ∨ ∃ p q, p < q ∧ q < n ∧ e = (1 <<< p) ^^^ (1 <<< q) := by
+  by_cases h0 : e = 0
+  · exact Or.inl h0
+  · right
+    have hL : e.log2 < n := (Nat.log2_lt h0).mpr he
+    have hw' := DistInfo.weight_clear_top n e h0 he
+    set r := e % 2 ^ e.log2 with hr
+    have hrlt : r < 2 ^ e.log2 := Nat.mod_lt _ (Nat.two_pow_pos _)
+    have hrn : r < 2 ^ n := lt_of_lt_of_le hrlt (Nat.pow_le_pow_right (by decide) (by omega))
+    have hlt : e < 2 ^ (e.log2 + 1) := (Nat.log2_lt h0).mp (Nat.lt_succ_self _)
+    have hsplit : e = r ^^^ (1 <<< e.log2) := by
+      apply Nat.eq_of_testBit_eq
+      intro i
+      rw [Nat.testBit_xor, hr, Nat.testBit_mod_two_pow, Nat.one_shiftLeft, Nat.testBit_two_pow]
+      rcases Nat.lt_trichotomy i e.log2 with hi | hi | hi
+      · have : e.log2 ≠ i := by omega
+        simp [hi, this]
+      · subst hi; simp [Nat.testBit_log2 h0]
+      · have h1 : e.testBit i = false :=
+          Nat.testBit_lt_two_pow (lt_of_lt_of_le hlt (Nat.pow_le_pow_right (by decide) (by omega)))
+        have h2 : ¬ i < e.log2 := by omega
+        have h3 : e.log2 ≠ i := by omega
+        simp [h1, h2, h3]
+    rcases light_one n r hrn (by omega) with hr0 | ⟨p, hp, hrp⟩
+    · left
+      refine ⟨e.log2, hL, ?_⟩
+      exact hsplit.trans (by rw [hr0, Nat.zero_xor])
+    · right
+      have hpL : p < e.log2 := by
+        by_contra hge
+        have : 2 ^ e.log2 ≤ 2 ^ p := Nat.pow_le_pow_right (by decide) (by omega)
+        rw [hrp, Nat.one_shiftLeft] at hrlt
+        omega
+      exact ⟨p, e.log2, hpL, hL, hsplit.trans (by rw [hrp])⟩
+
+/-- **t = 2: every error pattern of weight ≤ 2 on every code word, every certified BCH instance with δ ≥ 5, every length** -/
+theorem bm_corrects_t2 (c : BchInst) (hok : bchOk c = true) (hd : 4 < c.delta) (msg e : Nat) (he : e < 2 ^ c.n)
+    (hw : weight c.n e ≤ 2) : correct c.P c.m 2 c.n (encode c.G msg ^^^ e) = encode c.G msg := by
+  rcases light_two c.n e he hw with h0 | ⟨p, hp, rfl⟩ | ⟨p, q, hpq, hq, rfl⟩
+  · subst h0
+    rw [Nat.xor_zero]
+    exact bm_no_error c hok 2 (by omega) msg
+  · exact bm_single_error_t2 c hok hd msg p hp
+  · exact bm_double_error c hok hd msg p q hpq hq
+
+
 
 end BMProofs
